@@ -37,19 +37,19 @@ type c13Doc struct {
 }
 
 type c13Run struct {
-	e        *c13Env
-	sfx      string
-	docs     map[string]*c13Doc // d1 d2 g
-	grantTo  string             // "" | "u" | "r" (granting doc g's current grant of channel A)
-	uAdm     map[string]bool
-	uRole    bool
-	rAdm     map[string]bool
-	rLive    bool
-	replica  map[string]string // doc -> rev held by the client
-	last     SequenceID
-	hist     []string
-	revoked  map[string]bool
-	pullN    int
+	e       *c13Env
+	sfx     string
+	docs    map[string]*c13Doc // d1 d2 g
+	grantTo string             // "" | "u" | "r" (granting doc g's current grant of channel A)
+	uAdm    map[string]bool
+	uRole   bool
+	rAdm    map[string]bool
+	rLive   bool
+	replica map[string]string // doc -> rev held by the client
+	last    SequenceID
+	hist    []string
+	revoked map[string]bool
+	pullN   int
 	// why each document left the user's view (the world event that did it) and whether it was written again since
 	lostBy        map[string]string
 	rewrittenLost map[string]bool
@@ -60,6 +60,8 @@ type c13Run struct {
 	open          *c13Open
 	markerN       int
 	abandoned     bool
+	viaVV         bool
+	vvN           int
 }
 
 // c13Open is an open (continuous) pull
@@ -175,12 +177,12 @@ func (r *c13Run) syncOpen(rep *vreport.Report) map[string]string {
 }
 
 type c13Env struct {
-	vb   *vstore.Bucket // hooks stay off except inside the composite role-deletion event
-	tb   *base.TestBucket
-	db   *Database
-	ctx  context.Context
-	coll *DatabaseCollectionWithUser
-	n    int
+	vb    *vstore.Bucket // hooks stay off except inside the composite role-deletion event
+	tb    *base.TestBucket
+	db    *Database
+	ctx   context.Context
+	coll  *DatabaseCollectionWithUser
+	n     int
 	debug bool
 }
 
@@ -212,7 +214,13 @@ func (r *c13Run) put(id string, chans []string, extra Body, del bool) error {
 		}
 		body = Body{BodyRev: d.rev, BodyDeleted: true}
 	}
-	rev, _, err := r.e.coll.Put(r.e.ctx, r.n(id), body)
+	var rev string
+	var err error
+	if r.viaVV {
+		rev, err = r.putVV(r.n(id), d, body, del)
+	} else {
+		rev, _, err = r.e.coll.Put(r.e.ctx, r.n(id), body)
+	}
 	if err != nil {
 		return err
 	}
@@ -223,8 +231,58 @@ func (r *c13Run) put(id string, chans []string, extra Body, del bool) error {
 	return nil
 }
 
+// putVV writes the revision as it arrives from another Sync Gateway under the version-vector protocol (non-conflicting:
+// the vector dominates the local one, the history continues the local current revision)
+func (r *c13Run) putVV(docID string, d *c13Doc, body Body, del bool) (string, error) {
+	e := r.e
+	r.vvN++
+	incoming := &HybridLogicalVector{SourceID: "cmVtb3Rl", Version: uint64(time.Now().UnixNano()) + 1000000000, PreviousVersions: HLVVersions{}}
+	gen := 1
+	var history []string
+	if d.exists {
+		cur, err := e.coll.GetDocument(e.ctx, docID, DocUnmarshalSync)
+		if err != nil {
+			return "", err
+		}
+		g, _ := ParseRevID(e.ctx, d.rev)
+		gen = g + 1
+		history = []string{d.rev}
+		if cur.HLV != nil {
+			for src, v := range cur.HLV.PreviousVersions {
+				incoming.PreviousVersions[src] = v
+			}
+			if cur.HLV.SourceID != incoming.SourceID {
+				incoming.PreviousVersions[cur.HLV.SourceID] = cur.HLV.Version
+			}
+			if cur.HLV.Version >= incoming.Version {
+				incoming.Version = cur.HLV.Version + 1000
+			}
+			delete(incoming.PreviousVersions, incoming.SourceID)
+		}
+	}
+	rev := fmt.Sprintf("%d-vv%d", gen, r.vvN)
+	history = append([]string{rev}, history...)
+	newDoc := &Document{ID: docID, RevID: rev, Deleted: del, HLV: incoming}
+	b := Body{}
+	for k, v := range body {
+		if k != BodyRev && k != BodyDeleted {
+			b[k] = v
+		}
+	}
+	newDoc.UpdateBody(b)
+	_, _, _, err := e.coll.PutExistingCurrentVersion(e.ctx, PutDocOptions{NewDoc: newDoc, RevTreeHistory: history, NewDocHLV: incoming, ISGRWrite: true,
+		ForceAllowConflictingTombstone: del, ConflictResolver: NewConflictResolver(DefaultLWWConflictResolutionType, nil)})
+	return rev, err
+}
+
 func (r *c13Run) world(sym string) error {
 	e := r.e
+	r.viaVV = false
+	if strings.Contains(sym, "~:") {
+		// "d1~:B": the write arrives as a replicated version-vector revision
+		sym, r.viaVV = strings.Replace(sym, "~:", ":", 1), true
+		defer func() { r.viaVV = false }()
+	}
 	user := func(cfg *auth.PrincipalConfig) error {
 		cfg.Name = base.Ptr(r.n("u"))
 		_, _, err := e.db.UpdatePrincipal(e.ctx, cfg, true, true)
@@ -515,7 +573,7 @@ func (r *c13Run) compare(tag string, uc *DatabaseCollectionWithUser, viol map[st
 			}
 		}
 	}
-	}
+}
 
 // c13WaitFeed waits (spinning, sub-millisecond granularity) until the change cache has processed every allocated sequence.
 func c13WaitFeed(e *c13Env) {
@@ -582,7 +640,9 @@ func (e *c13Env) run(t testing.TB, r *vreport.Report, hist []string) {
 		c13Cur = run.hist
 		t0 := time.Now()
 		if e.debug {
-			defer func(sym string, t0 time.Time) { fmt.Printf("REPLAY-ENTRY timing %s started at %v\n", sym, t0.Format("15:04:05.000")) }(sym, t0)
+			defer func(sym string, t0 time.Time) {
+				fmt.Printf("REPLAY-ENTRY timing %s started at %v\n", sym, t0.Format("15:04:05.000"))
+			}(sym, t0)
 		}
 		if sym == "open" {
 			if err := run.startOpen(); err != nil {
@@ -668,7 +728,7 @@ func (e *c13Env) run(t testing.TB, r *vreport.Report, hist []string) {
 			delete(run.regrantSince, id)
 		}
 		if strings.HasPrefix(sym, "d") {
-			if id := sym[:strings.Index(sym, ":")]; run.lostBy[id] != "" && run.lostBy[id] != sym {
+			if id := strings.TrimSuffix(sym[:strings.Index(sym, ":")], "~"); run.lostBy[id] != "" && run.lostBy[id] != sym {
 				run.rewrittenLost[id] = true
 			}
 		}
@@ -729,9 +789,11 @@ func TestVerifC13(t *testing.T) {
 		depth    int
 		limits   []int
 	}
-	spaces := []space{{c13World, 3, []int{0, 1, 2}}}
+	// document writes that arrive as replicated version-vector revisions, with the events that decide what the user sees
+	vvSpace := []string{"d1:A", "d1~:A", "d1~:B", "d1~:del", "u:A", "u:none", "u+r", "r:B"}
+	spaces := []space{{c13World, 3, []int{0, 1, 2}}, {vvSpace, 3, []int{0, 2}}}
 	if r.Thorough() {
-		spaces = []space{{c13World, 3, []int{0, 1, 2}}, {core, 4, []int{0, 1, 2}}, {c13World, 4, []int{0, 1}}}
+		spaces = []space{{c13World, 3, []int{0, 1, 2}}, {core, 4, []int{0, 1, 2}}, {c13World, 4, []int{0, 1}}, {vvSpace, 4, []int{0, 2}}}
 	}
 	idx := 0
 	for si, sp := range spaces {
